@@ -2971,6 +2971,12 @@ SKIP_CERT_CHAIN_INIT:
     {
         int32 certFlags = 0;
 
+        if (end - c < 3)
+        {
+            ssl->err = SSL_ALERT_DECODE_ERROR;
+            psTraceErrr("Invalid certificate chain length\n");
+            return MATRIXSSL_ERROR;
+        }
         certLen = *c << 16; c++;
         certLen |= *c << 8; c++;
         certLen |= *c; c++;
